@@ -281,7 +281,7 @@ pub fn check(thorough: bool, _seed: u64) -> Check {
                 _ => {
                     const YS: [f64; 6] = [0.0, 1.0, 0.5, 2.0, 0.1 + 0.2, -1.5];
                     const XSTEP: [f64; 4] = [1.0, 0.1, 0.3, 2.5];
-                    let nk = 3 + cx.choose(if thorough { 4 } else { 3 });
+                    let nk = 3 + cx.choose(3);
                     let mut x = [0.0, 0.7, -3.0][cx.choose(3)];
                     let mut ks = vec![];
                     for _ in 0..nk {
@@ -317,7 +317,7 @@ pub fn check(thorough: bool, _seed: u64) -> Check {
         }),
         classes: vec![],
         bounds: json!({"families": "2..4 (5 thorough) pieces of Poly3 / Poly4, each piece the previous one with one coefficient (every lane) scaled by 1+d, d in {0, +-1ulp, 1e-15, 4e-10, -7e-10, 1e-12, 3e-9, 1e-6}",
-            "library curves": "constrained_spline and linear on 3..5 (6 thorough) knots (3 origins, steps {1,0.1} (+{0.3,2.5} thorough), ordinates over {0,1,0.5,2,0.1+0.2,-1.5}); the spline's derivative differentiated again",
+            "library curves": "constrained_spline and linear on 3..5 knots (3 origins, steps {1,0.1} (+{0.3,2.5} thorough), ordinates over {0,1,0.5,2,0.1+0.2,-1.5}); the spline's derivative differentiated again",
             "comparison": "number of pieces, every end and every number of every piece on bits against the piece's own derivative()"}),
     };
     Check {
